@@ -103,6 +103,26 @@ func jsTokens(src string) ([]string, error) {
 	return toks, nil
 }
 
+// incJSProgram: a package that ships JavaScript with every comment form esbuild treats specially.
+func incJSProgram() diffrun.Program {
+	return diffrun.Program{Name: "c16_incjs", NoNative: true, Files: map[string]string{
+		"main.go": `package main
+
+import "github.com/gopherjs/gopherjs/js"
+
+func main() {
+	println("C16/incjs/a " + js.Global.Call("c16inc", "a").String())
+	println("C16/incjs/b " + js.Global.Call("c16inc2", 20, 22).String())
+	c := make(chan int)
+	println("C16/incjs/before-deadlock x")
+	<-c
+}
+`,
+		"a_shim.inc.js": "//! legal line comment at the very top\n// @license MIT\n/*! legal block comment */\n// ordinary comment\n$global.c16inc = function(x) { return 'inc:' + x + '//not a comment' + \"/* nor this */\"; }; // trailing comment\nconsole.log('C16/incjs/loaded a_shim');\n// @preserve a legal comment on the last line, no newline at the end of the file",
+		"b_more.inc.js": "/* plain block */\n$global.c16inc2 = function(a, b) {\n  // inner comment\n  var re = /\\/\\/x/; // a regular expression with slashes\n  return String(a + b) + (re.test('//x') ? 'y' : 'n') + `tpl // ${a}`;\n};\n//# sourceURL=b_more.js\n",
+	}}
+}
+
 var rePkgStart = regexp.MustCompile(`\$packages\["[^"]+"\] ?= ?\(function\(\) ?\{`)
 
 func pkgSection(js string) string {
@@ -124,7 +144,12 @@ func c16(tier string) int {
 	env.CheckAll([]diffrun.Program{minx.Program(thorough)}, []diffrun.Variant{diffrun.Plain, diffrun.Minified})
 	// layer 1: corpus-wide differential, the plain build is the reference for the minified one
 	corp := append(corpus(thorough), generic.Program(), susp.Programs()[0], susp.Programs()[5])
-	corp = append(corp, generic.SmallPrograms()...)
+	for _, sp := range generic.SmallPrograms() {
+		if sp.Name != "c04_localcomposite" { // does not build at all (known finding of C04)
+			corp = append(corp, sp)
+		}
+	}
+	corp = append(corp, incJSProgram())
 	env.CheckAllAgainstVariant(corp, diffrun.Plain, []diffrun.Variant{diffrun.Minified})
 	// layer 3a: the allocator, directly
 	maxLen := 7
